@@ -390,10 +390,14 @@ func writeReplay(rep *Report, o *ObligResult, opts *Options) string {
 		if o.FailRes.Status == "sat" && o.Fail != nil && o.Fail.Replay != nil && rep.replays < 6 {
 			rep.replays++
 			rd, confirmed := o.Fail.Replay(o.FailRes.Model, opts)
-			doc["replay_on_real_code"] = rd
-			doc["replay_confirmed"] = confirmed
-			o.Replayed = true
-			o.Confirmed = confirmed
+			if rd != nil {
+				doc["replay_on_real_code"] = rd
+				if _, failed := rd["error"]; !failed {
+					doc["replay_confirmed"] = confirmed
+					o.Replayed = true
+					o.Confirmed = confirmed
+				}
+			}
 		}
 		if o.FailRes.File != "" {
 			if q, err := os.ReadFile(o.FailRes.File); err == nil {
